@@ -24,7 +24,7 @@ META = {
                    'equals the state before it and histories of any length behave like the explored ones; (e) the outputs with inputs requiring grad equal those without. '
                    'THREADS are not explored: the checked non-interference premises (calls write only freshly allocated tensors and read only arguments and immutable shared '
                    'state) imply schedule independence provided torch kernels and dict operations are thread-safe; real interleavings are outside this technique.',
-    'bounds': {'quick': {'pool': 14, 'sequences': 'all ordered pairs (156) + 12 triples'}, 'thorough': {'pool': 14, 'sequences': 'all ordered pairs + all triples ending in 4 targets'}},
+    'bounds': {'quick': {'pool': 15, 'sequences': 'all ordered pairs + triples ending in 4 targets (every 40th) + 13 same-instance sequences (short / other-shaped input first)'}, 'thorough': {'pool': 14, 'sequences': 'all ordered pairs + all triples ending in 4 targets'}},
     'outside': 'thread interleavings; sequences longer than 3 (covered only through the state-digest induction step); CUDA',
     'assumptions': ['real-arithmetic semantics', 'state reachable only through module globals, function attributes, class attributes and module buffers'],
 }
@@ -33,6 +33,7 @@ POOL = [
     dict(id='d1_db3_sym', kind='dwt1f', wave='db3', mode='symmetric', J=2, N=13, B=1, C=2),
     dict(id='d1_coif1_sym', kind='dwt1f', wave='coif1', mode='symmetric', J=2, N=13, B=1, C=2),
     dict(id='d1_db3_per', kind='dwt1f', wave='db3', mode='periodic', J=2, N=13, B=1, C=2),
+    dict(id='d1_deep', kind='dwt1f', wave='db4', mode='zero', J=4, N=64, B=1, C=1),
     dict(id='d1i_bior22_zero', kind='dwt1i', wave='bior2.2', mode='zero', J=2, N=13, B=1, C=2),
     dict(id='d2_db2_sym', kind='dwt2f', wave='db2', mode='symmetric', J=1, H=6, W=8, B=1, C=2),
     dict(id='d2_db2_per', kind='dwt2f', wave='db2', mode='periodic', J=1, H=6, W=8, B=1, C=2),
@@ -46,6 +47,10 @@ POOL = [
     dict(id='dti_06', kind='dti', biort='legall', qshift='qshift_06', J=2, H=6, W=8, B=1, C=1),
 ]
 BYID = {p['id']: p for p in POOL}
+# (pool id of the target call, overrides giving the earlier call's input size on the same instance)
+SAME = [('d1_db3_sym', dict(N=5, J=2)), ('d1_db3_sym', dict(N=40)), ('d1_coif1_sym', dict(N=7)), ('d2_db2_sym', dict(H=3, W=4)), ('d2_db2_per', dict(H=12, W=5)),
+        ('swt_db2', dict(H=8, W=4)), ('dtf_a', dict(H=2, W=2)), ('dtf_a', dict(H=16, W=12)), ('dti_06', dict(H=4, W=4)), ('d2i_db2_zero', dict(H=9, W=5)),
+        ('d1i_bior22_zero', dict(N=6)), ('d1_deep', dict(N=20)), ('d1_deep', dict(N=9))]
 
 
 def configs(tier, seed):
@@ -66,6 +71,9 @@ def configs(tier, seed):
                         out.append(dict(seq=[a1, a2, t]))
     for p in POOL:
         out.append(dict(seq=[p['id'], p['id']]))
+    # the SAME module instance first sees a short / differently shaped input, then the target input
+    for (mid, alt) in SAME:
+        out.append(dict(seq=[mid], same_instance=alt))
     return out
 
 
@@ -117,18 +125,30 @@ def _cast(tt, c, t):
     return t.float() if c.get('f32') else t
 
 
-def _sym_call(c, requires_grad=False, nograd=False):
+def _attrs(m):
+    """plain (non-tensor) attributes of a module instance: its construction parameters"""
+    out = {}
+    for k, v in vars(m).items():
+        if k.startswith('_') or k == 'training':
+            continue
+        if isinstance(v, (int, float, str, bool, type(None), list, tuple)):
+            out[k] = repr(v)
+    return out
+
+
+def _sym_call(c, requires_grad=False, nograd=False, inst=None):
     """-> (outputs as object arrays, ids, purity report)"""
     if nograd:
         with symtorch.shim().no_grad():
-            return _sym_call(c, requires_grad=requires_grad)
+            return _sym_call(c, requires_grad=requires_grad, inst=inst)
     spw = symtorch.sym(); st = symtorch.shim()
     tens = []; ids = []
     for nm, s in _specs(c):
         t, i = core.symin(tuple(s), name=nm, dtype=st.float32 if c.get('f32') else st.float64, requires_grad=requires_grad)
         tens.append(t); ids.append(i)
-    m = _make_module(spw, c)
+    m = inst if inst is not None else _make_module(spw, c)
     bufs_before = {n: b.a.copy() for n, b in list(m.named_buffers()) + list(m.named_parameters())}
+    attrs_before = _attrs(m)
     args = _build_args(spw, c, tens)
     lists_before = [(args[1], list(args[1]))] if isinstance(args, tuple) else []
     snap = [t.a.copy() for t in tens]
@@ -144,6 +164,9 @@ def _sym_call(c, requires_grad=False, nograd=False):
     for org, op in T.STATE.writes:
         if org and (org.startswith('arg:') or org.startswith('buffer:')):
             report.append('in-place %s into %s' % (op, org))
+    if _attrs(m) != attrs_before:
+        ch = [k for k in attrs_before if _attrs(m).get(k) != attrs_before[k]]
+        report.append('module attribute(s) %s changed by the call' % ch)
     for n, b in list(m.named_buffers()) + list(m.named_parameters()):
         b0 = bufs_before.get(n)
         if b0 is None or b0.shape != b.a.shape or any(not p.same(q) for p, q in zip(b.a.reshape(-1), b0.reshape(-1))):
@@ -152,9 +175,9 @@ def _sym_call(c, requires_grad=False, nograd=False):
     return res, ids, report
 
 
-def _real_call(c, xs):
+def _real_call(c, xs, inst=None):
     rt = symtorch.real_torch()
-    m = _make_module(symtorch.real(), c)
+    m = inst if inst is not None else _make_module(symtorch.real(), c)
     ts = [rt.tensor(x, dtype=rt.float32 if c.get('f32') else rt.float64) for x in xs]
     args = _build_args(symtorch.real(), c, ts)
     before = list(args[1]) if isinstance(args, tuple) else None
@@ -264,6 +287,22 @@ def run_config(cfg):
     if bl[0] != 'ok':
         res.status = 'error'; res.trace = 'baseline child failed: %s' % (bl[1],); return res
     (b_sym, b_real) = bl[1]
+    # history on the same instance: one module object (per copy) is called on another input first
+    inst_s = inst_r = None
+    if cfg.get('same_instance'):
+        alt = dict(target, **cfg['same_instance'])
+        core.begin()
+        with symtorch.symbolic():
+            inst_s = _make_module(symtorch.sym(), target)
+            ho = core.outcome(lambda: _sym_call(alt, inst=inst_s))
+        inst_r = _make_module(symtorch.real(), target)
+        hx = [rng.uniform(-1, 1, size=s_) for _, s_ in _specs(alt)]
+        hr = core.outcome(lambda: _real_call(alt, hx, inst=inst_r))
+        if ho[0] == 'unsupported':
+            res.status = 'inconclusive'; res.notes.append('symbolic engine: ' + ho[1]); return res
+        if ho[0] == 'ok' and ho[1][2]:
+            res.status = 'violation'
+            res.violations.append(dict(what='call is not pure: %s' % '; '.join(sorted(set(ho[1][2]))), facts=dict(facts, purity=True), replay=dict(kind='purity'), reproduced=True)); return res
     # history
     for c in seq[:-1]:
         core.begin()
@@ -277,9 +316,9 @@ def run_config(cfg):
     core.begin()
     d0 = state_digest()
     with symtorch.symbolic():
-        so = core.outcome(lambda: _sym_call(target))
+        so = core.outcome(lambda: _sym_call(target, inst=inst_s))
     d1 = state_digest()
-    ro = core.outcome(lambda: _real_call(target, xs))
+    ro = core.outcome(lambda: _real_call(target, xs, inst=inst_r))
     res.funcs = sorted(T.STATE.funcs_entered)
     if so[0] == 'unsupported':
         res.status = 'inconclusive'; res.notes.append('symbolic engine: ' + so[1]); return res
